@@ -802,6 +802,11 @@ def C06(tier, seed, st):
                 for e in gens.ERR_KINDS:
                     add(n, lang, [(data[:k], e)], "fail-with-bytes")
                     add(n, lang, [(data[:k], None), (b"", e)], "fail-after-bytes")
+                if not q or k % 4 == 1:
+                    # a source that KEEPS failing (the same error on every further read), with bytes trickling in or not
+                    e = rng.choice(gens.ERR_KINDS)
+                    add(n, lang, [(data[:k], e)] + [(b"", e)] * 6, "keeps-failing")
+                    add(n, lang, [(data[:k // 2], e), (data[k // 2:k], e)] + [(b"", e)] * 6, "keeps-failing")
                 if not q or k % 4 == 0:
                     cut = rng.randrange(k + 1)
                     add(n, lang, [(data[:cut], None), (data[cut:k], rng.choice(gens.ERR_KINDS))], "fail-fragmented")
